@@ -60,13 +60,22 @@ Proof. intros (n & L & F & C & E) H. rewrite L, app_length. lia. Qed.
 Definition env_ev_ok (W : world) (IdOK : ectx -> eid -> Prop) (root name : string) (e : ev) : Prop :=
   match e with
   | EvLoad _ => True
-  | _ => exists E, ev_ok W IdOK E e /\ (eff_root root name <> "" -> ec_root E = eff_root root name)
+  | _ => exists E, ev_ok W IdOK E e
+                   /\ (eff_root root name <> "" -> eff_root root name <> "<yaml>" -> ec_root E = eff_root root name)
+                   (* whatever the names: an anonymous root is only ever told to the anonymous environment itself *)
+                   /\ (anon_root (ec_root E) = false \/ ec_root E = ec_name E)
   end.
 
-Lemma eff_root_idem root name n : eff_root root name <> "" -> eff_root (eff_root root name) n = eff_root root name.
+Lemma eff_root_idem root name n :
+  eff_root root name <> "" -> eff_root root name <> "<yaml>" -> eff_root (eff_root root name) n = eff_root root name.
 Proof.
-  intros H. unfold eff_root at 1. destruct (String.eqb (eff_root root name) "") eqn:E; [|reflexivity].
-  apply String.eqb_eq in E. contradiction.
+  intros H H'. rewrite (eff_root_anon (eff_root root name) n).
+  rewrite (proj2 (anon_root_false (eff_root root name)) (conj H H')). reflexivity.
+Qed.
+
+Lemma eff_root_anon_or_own root name : anon_root (eff_root root name) = false \/ eff_root root name = name.
+Proof.
+  rewrite eff_root_anon. destruct (anon_root root) eqn:E; [now right|now left].
 Qed.
 
 Section Delta.
@@ -141,11 +150,12 @@ Theorem eval_env_delta : forall fuel root name d g,
 Proof.
   assert (forall root name E e, ec_name E = name -> ec_root E = eff_root root name ->
             ev_ok W IdOK E e -> env_ev_ok W IdOK root name e) as Hup.
-  { intros root name E e Hn Hr He. destruct e; try exact I; exists E; (split; [exact He|intros _; exact Hr]). }
+  { intros root name E e Hn Hr He. destruct e; try exact I; exists E; (split; [exact He|split; [intros _ _; exact Hr|]]);
+      rewrite Hr, Hn; apply eff_root_anon_or_own. }
   assert (forall root name n e, env_ev_ok W IdOK (eff_root root name) n e -> env_ev_ok W IdOK root name e) as Hnest.
   { intros root name n e He.
-    destruct e; try exact I; destruct He as (E & He & Hr); exists E; (split; [exact He|]);
-      intros Hne; rewrite <- (eff_root_idem root name n Hne); apply Hr; rewrite eff_root_idem; assumption. }
+    destruct e; try exact I; destruct He as (E & He & Hr & Han); exists E; (split; [exact He|split; [|exact Han]]);
+      intros Hne Hny; rewrite <- (eff_root_idem root name n Hne Hny); apply Hr; rewrite eff_root_idem; assumption. }
   apply (eval_env_pres_delta Renv).
   - intros root name s. apply delta_refl.
   - intros root name g n. apply pres_add_err, delta_stable.
@@ -315,7 +325,8 @@ Theorem open_inputs_ok W fuel root name d id p xin r c :
   In (EvOpen id p xin r c) (log (snd (eval_env W fuel root name d st0))) ->
   w_check W = false
   /\ c = fst id
-  /\ (eff_root root name <> "" -> r = eff_root root name)
+  /\ (eff_root root name <> "" -> eff_root root name <> "<yaml>" -> r = eff_root root name)
+  /\ (anon_root r = false \/ r = c)
   /\ exists pv iv,
        alookup p (w_provs W) = Some pv
        /\ export big_fuel iv = Some xin
@@ -326,8 +337,9 @@ Theorem open_inputs_ok W fuel root name d id p xin r c :
 Proof.
   intros Hin. pose proof (env_log_from_st0 W fuel root name d) as F.
   rewrite Forall_forall in F. specialize (F _ Hin). cbn in F.
-  destruct F as (E & (Hid & Hr & Hc & Hchk & Hex) & Hroot). unfold Id_env in Hid.
-  split; [exact Hchk|]. split; [congruence|]. split; [intros Hne; rewrite Hr; auto|exact Hex].
+  destruct F as (E & (Hid & Hr & Hc & Hchk & Hex) & Hroot & Han). unfold Id_env in Hid.
+  split; [exact Hchk|]. split; [congruence|]. split; [intros Hne Hny; rewrite Hr; auto|].
+  split; [rewrite Hr, Hc; exact Han|exact Hex].
 Qed.
 
 (** ** 5. decrypt_only_valid_envelopes *)
@@ -367,7 +379,8 @@ Theorem run_open_inputs_ok fuel W name d id p xin r c :
   In (EvOpen id p xin r c) (ob_log (run fuel W name d)) ->
   w_check W = false
   /\ c = fst id
-  /\ (name <> "" -> r = name)
+  /\ (name <> "" -> name <> "<yaml>" -> r = name)
+  /\ (anon_root r = false \/ r = c)
   /\ exists pv iv,
        alookup p (w_provs W) = Some pv
        /\ export big_fuel iv = Some xin
